@@ -1038,12 +1038,18 @@ fn status_from(code: u8) -> ctap2::Error {
     }
 }
 fn mk_ga() -> ga::Response {
-    ga::ResponseBuilder {
-        credential: wa::PublicKeyCredentialDescriptor { id: Bytes::new(), key_type: HString::from("public-key") },
-        auth_data: Bytes::new(),
-        signature: Bytes::new(),
+    // every member the harness can set is set: the dispatcher must hand the handler's response back unchanged
+    let mut r = ga::ResponseBuilder {
+        credential: wa::PublicKeyCredentialDescriptor { id: Bytes::from_slice(&[1, 2, 3]).unwrap(), key_type: HString::from("public-key") },
+        auth_data: Bytes::from_slice(&[9; 37]).unwrap(),
+        signature: Bytes::from_slice(&[7; 8]).unwrap(),
     }
-    .build()
+    .build();
+    r.user = Some(wa::PublicKeyCredentialUserEntity::from(Bytes::from_slice(&[5, 6]).unwrap()));
+    r.number_of_credentials = Some(2);
+    r.user_selected = Some(true);
+    r.large_blob_key = Some(serde_bytes::ByteArray::new([4; 32]));
+    r
 }
 macro_rules! mock_impl {
     ($name:ident, {$($lb:tt)*}, {$($c1:tt)*}) => {
@@ -1233,6 +1239,12 @@ fn dispatch2(entry: &str, beh: &str, lb_override: &str, data: &[u8]) -> String {
     }
     let names: Vec<&str> = log.iter().map(|l| l.split(' ').next().unwrap_or("")).collect();
     let same = log.iter().all(|l| *l == expected_param(&req));
+    // the response is the handler's, unchanged (the assertion handlers return a response with every member set)
+    if let Ok(ctap2::Response::GetAssertion(x)) | Ok(ctap2::Response::GetNextAssertion(x)) = &res {
+        if *x != mk_ga() {
+            return "the dispatcher altered the response the handler returned".into();
+        }
+    }
     let r = match &res {
         Ok(r) => format!("ok:{}", resp2_name(r)),
         Err(e) => format!("err:{:x}", *e as u8),
@@ -1581,6 +1593,9 @@ fn run(op: &str, a: &[&str]) -> String {
 
 fn main() {
     std::panic::set_hook(Box::new(|_| {}));
+    // with the crate's logging compiled in, the arguments of a log statement are evaluated only when the level passes the filter
+    #[cfg(feature = "log-all")]
+    log::set_max_level(log::LevelFilter::Trace);
     let stdin = std::io::stdin();
     let stdout = std::io::stdout();
     let mut out = std::io::BufWriter::with_capacity(1 << 20, stdout.lock());
